@@ -32,6 +32,7 @@ type pki struct {
 	clientCA                                                            *certs.Pair // what the collector is told to trust for exporters (distinct from the CA of its own certificate)
 	cliFromClientCA, cliExpiredCCA                                      *certs.Pair
 	ca, otherCA                                                         *certs.Pair
+	good                                                                certs.Opts
 	srvTrusted, srvOtherCA, srvSelf, srvExpired, srvFuture, srvWrongSAN *certs.Pair
 	srvNoSAN                                                            *certs.Pair
 	cliTrusted, cliOtherCA, cliExpired                                  *certs.Pair
@@ -44,6 +45,7 @@ func mkPKI(v6 bool) *pki {
 	}
 	p := &pki{ca: certs.NewCA("verif-ca"), otherCA: certs.NewCA("other-ca")}
 	good := certs.Opts{CN: "collector", DNS: []string{"collector.test"}, IPs: []string{ip}}
+	p.good = good
 	p.srvTrusted = certs.Issue(p.ca, good)
 	p.srvOtherCA = certs.Issue(p.otherCA, good)
 	self := good
@@ -459,6 +461,18 @@ func main() {
 		{"self-signed", func(p *pki) *certs.Pair { return p.srvSelf }, false},
 		{"expired", func(p *pki) *certs.Pair { return p.srvExpired }, false},
 		{"not-yet-valid", func(p *pki) *certs.Pair { return p.srvFuture }, false},
+		// close to the boundaries of the validity period (issued when the cell runs, so that the three minutes
+		// are three minutes): "within its validity period" has no allowance for clock skew
+		{"valid-in-3-minutes", func(p *pki) *certs.Pair {
+			o := p.good
+			o.NotBefore, o.NotAfter = time.Now().Add(3*time.Minute), time.Now().Add(24*time.Hour)
+			return certs.Issue(p.ca, o)
+		}, false},
+		{"expired-3-minutes-ago", func(p *pki) *certs.Pair {
+			o := p.good
+			o.NotBefore, o.NotAfter = time.Now().Add(-24*time.Hour), time.Now().Add(-3*time.Minute)
+			return certs.Issue(p.ca, o)
+		}, false},
 		{"wrong-san", func(p *pki) *certs.Pair { return p.srvWrongSAN }, false},
 		{"no-san", func(p *pki) *certs.Pair { return p.srvNoSAN }, false},
 	}
